@@ -587,7 +587,11 @@ func orchestrate(check *Check, tier string, seed int64, nworkers int, budgetOver
 				fmt.Printf("INFRASTRUCTURE: worker %d crashed: %s %v\n", i, c.What, c.Repro)
 				infra = true
 			}
-			exhaustive = false
+			// a pinpointed crash that is a listed finding is a verdict on that one case; the shard was
+			// restarted behind it (a shard that could not be finished has r == nil below)
+			if c.Finding == "" {
+				exhaustive = false
+			}
 		}
 		if r == nil {
 			exhaustive = false
